@@ -1,18 +1,548 @@
-(** Lemmas about the router model (C01, mux-level C05). *)
+(** Lemmas about the cache-less router model: refinement of the search loops to
+    the declarative first-match specification (C01), rewrite, 503, header
+    semantics, port stripping, and the router-level IP filter clauses (C05). *)
 From EG.lib Require Import Base.
 From EG.model Require Import Mux.
 Open Scope string_scope.
+
+(** ** strings *)
+Lemma is_prefix_app : forall p t, is_prefix p (p ++ t) = true.
+Proof.
+  induction p as [|a p IH]; intro t; cbn; [reflexivity|].
+  rewrite Ascii.eqb_refl, IH. reflexivity.
+Qed.
+
+Lemma is_prefix_spec : forall p s, is_prefix p s = true <-> exists t, s = p ++ t.
+Proof.
+  induction p as [|a p IH]; intro s; cbn.
+  - split; [intros _; exists s; reflexivity | reflexivity].
+  - destruct s as [|b s].
+    + split; [discriminate | intros [t Ht]; discriminate].
+    + split.
+      * intro H. apply andb_true_iff in H as [H1 H2]. apply Ascii.eqb_eq in H1. subst b.
+        apply IH in H2 as [t Ht]. exists t. cbn. now rewrite Ht.
+      * intros [t Ht]. cbn in Ht. inversion Ht; subst. rewrite Ascii.eqb_refl. cbn. apply is_prefix_app.
+Qed.
+
+Lemma sdrop_app : forall p t, sdrop (String.length p) (p ++ t) = t.
+Proof. induction p as [|a p IH]; intro t; cbn; [reflexivity | apply IH]. Qed.
+
+Lemma stake_app : forall p t, stake (String.length p) (p ++ t) = p.
+Proof. induction p as [|a p IH]; intro t; cbn; [reflexivity | now rewrite IH]. Qed.
+
+Lemma shas_app : forall c a b, shas c (a ++ b) = shas c a || shas c b.
+Proof.
+  intros c a b. unfold shas. induction a as [|x a IH]; cbn; [reflexivity|].
+  destruct (Ascii.eqb x c); [reflexivity|].
+  destruct (sindex c (a ++ b)), (sindex c a), (sindex c b); cbn in *; try reflexivity; discriminate.
+Qed.
+
+Lemma slast_index_none : forall c s, shas c s = false -> slast_index c s = None.
+Proof.
+  intros c s. unfold shas. induction s as [|x s IH]; cbn; [reflexivity|].
+  destruct (Ascii.eqb x c); [discriminate|].
+  destruct (sindex c s); [discriminate|]. intros _. now rewrite IH.
+Qed.
+
+Lemma slast_index_single : forall c a b,
+  shas c b = false -> slast_index c (a ++ String c b) = Some (String.length a).
+Proof.
+  intros c a b Hb. induction a as [|x a IH]; cbn.
+  - rewrite (slast_index_none c b Hb), Ascii.eqb_refl. reflexivity.
+  - rewrite IH. reflexivity.
+Qed.
+
+Lemma strip_port_nobracket : forall hp i,
+  slast_index ":" hp = Some i -> (forall t, hp <> String "[" t) ->
+  strip_port hp =
+    if shas ":" (stake i hp) then hp
+    else if shas "[" hp || shas "]" hp then hp else stake i hp.
+Proof.
+  intros hp i H Hn. unfold strip_port. rewrite H.
+  destruct hp as [|x t]; [reflexivity|].
+  destruct x as [b0 b1 b2 b3 b4 b5 b6 b7].
+  destruct b0, b1, b2, b3, b4, b5, b6, b7; try reflexivity.
+  exfalso. apply (Hn t). reflexivity.
+Qed.
+
+(** net.SplitHostPort on [name:port] (no colon or bracket in either part) *)
+Lemma strip_port_name_port : forall h p,
+  shas ":" h = false -> shas "[" h = false -> shas "]" h = false ->
+  shas ":" p = false -> shas "[" p = false -> shas "]" p = false ->
+  strip_port (h ++ ":" ++ p) = h.
+Proof.
+  intros h p H1 H2 H3 H4 H5 H6.
+  change (h ++ ":" ++ p) with (h ++ String ":" p).
+  assert (Hb1 : shas "[" (h ++ String ":" p) = false).
+  { rewrite shas_app, H2. cbn. unfold shas in *. cbn. destruct (sindex "[" p); [discriminate | reflexivity]. }
+  assert (Hb2 : shas "]" (h ++ String ":" p) = false).
+  { rewrite shas_app, H3. cbn. unfold shas in *. cbn. destruct (sindex "]" p); [discriminate | reflexivity]. }
+  rewrite (strip_port_nobracket _ _ (slast_index_single ":" h p H4)).
+  - rewrite stake_app, H1, Hb1, Hb2. reflexivity.
+  - intros t E. rewrite E in Hb1. unfold shas in Hb1. cbn in Hb1. discriminate.
+Qed.
+
+Lemma strip_port_no_colon : forall h, shas ":" h = false -> strip_port h = h.
+Proof. intros h H. unfold strip_port. now rewrite (slast_index_none ":" h H). Qed.
+
+(** ** generic list facts *)
+Lemma find_app {A} (f : A -> bool) (l1 l2 : list A) :
+  find f (l1 ++ l2)%list = match find f l1 with Some x => Some x | None => find f l2 end.
+Proof. induction l1 as [|a l1 IH]; cbn; [reflexivity|]. destruct (f a); [reflexivity | apply IH]. Qed.
+
+Lemma find_map {A B} (f : B -> bool) (g : A -> B) (l : list A) :
+  find f (map g l) = option_map g (find (fun x => f (g x)) l).
+Proof. induction l as [|a l IH]; cbn; [reflexivity|]. destruct (f (g a)); [reflexivity | apply IH]. Qed.
+
+Lemma find_ext {A} (f g : A -> bool) (l : list A) :
+  (forall x, f x = g x) -> find f l = find g l.
+Proof. intro H. induction l as [|a l IH]; cbn; [reflexivity|]. rewrite H, IH. reflexivity. Qed.
+
+Lemma find_none_false {A} (f : A -> bool) (l : list A) :
+  (forall x, f x = false) -> find f l = None.
+Proof. intro H. induction l as [|a l IH]; cbn; [reflexivity|]. now rewrite H. Qed.
+
+Lemma existsb_false_all {A} (f : A -> bool) (l : list A) :
+  (forall x, f x = false) -> existsb f l = false.
+Proof. intro H. induction l as [|a l IH]; cbn; [reflexivity|]. now rewrite H. Qed.
+
+Lemma existsb_map {A B} (f : B -> bool) (g : A -> B) (l : list A) :
+  existsb f (map g l) = existsb (fun x => f (g x)) l.
+Proof. induction l as [|a l IH]; cbn; [reflexivity|]. now rewrite IH. Qed.
+
+Lemma find_first {A} (f : A -> bool) (l : list A) (x : A) :
+  find f l = Some x <->
+  exists l1 l2, l = (l1 ++ x :: l2)%list /\ f x = true /\ (forall y, In y l1 -> f y = false).
+Proof.
+  induction l as [|a l IH]; cbn.
+  - split; [discriminate | intros (l1 & l2 & E & _); destruct l1; discriminate].
+  - destruct (f a) eqn:Ea.
+    + split.
+      * intro H. inversion H; subst. exists [], l. repeat split; [assumption | intros y []].
+      * intros (l1 & l2 & E & Hx & Hl1). destruct l1 as [|b l1]; cbn in E; inversion E; subst.
+        -- reflexivity.
+        -- rewrite (Hl1 b (or_introl eq_refl)) in Ea. discriminate.
+    + rewrite IH. split.
+      * intros (l1 & l2 & E & Hx & Hl1). exists (a :: l1), l2. subst l. repeat split; [assumption|].
+        intros y [Hy | Hy]; [now subst | now apply Hl1].
+      * intros (l1 & l2 & E & Hx & Hl1). destruct l1 as [|b l1]; cbn in E; inversion E; subst.
+        -- rewrite Hx in Ea. discriminate.
+        -- exists l1, l2. repeat split; [assumption|]. intros y Hy. apply Hl1. now right.
+Qed.
+
+Lemma find_none_iff {A} (f : A -> bool) (l : list A) :
+  find f l = None <-> forall y, In y l -> f y = false.
+Proof.
+  induction l as [|a l IH]; cbn.
+  - split; [intros _ y [] | reflexivity].
+  - destruct (f a) eqn:Ea.
+    + split; [discriminate|]. intro H. rewrite (H a (or_introl eq_refl)) in Ea. discriminate.
+    + rewrite IH. split.
+      * intros H y [Hy | Hy]; [now subst | now apply H].
+      * intros H y Hy. apply H. now right.
+Qed.
 
 Section MuxProofs.
   Variable re_match : string -> string -> bool.
   Variable re_replace : string -> string -> string -> string.
   Variable ip_allow : N -> string -> bool.
 
-  Lemma unknown_backend_503 : forall sv rq p,
-    search_nocache re_match ip_allow sv rq = Route p ->
-    str_in (pe_backend p) (sv_backends sv) = false ->
-    serve_nocache re_match re_replace ip_allow sv rq = Failed 503.
+  Local Notation host_match := (host_match re_match).
+  Local Notation path_match := (path_match re_match).
+  Local Notation headers_match := (headers_match re_match).
+  Local Notation headers_ok := (headers_ok re_match).
+  Local Notation entry_match := (entry_match re_match).
+  Local Notation full_match := (full_match re_match).
+  Local Notation pm_match := (pm_match re_match).
+  Local Notation p_match := (p_match re_match).
+  Local Notation allow_all := (allow_all ip_allow).
+  Local Notation paths_dec := (paths_dec re_match).
+  Local Notation rules_dec := (rules_dec re_match ip_allow).
+  Local Notation search_dec := (search_dec re_match ip_allow).
+  Local Notation result_of := (result_of ip_allow).
+  Local Notation search_nocache := (search_nocache re_match ip_allow).
+  Local Notation search_spec := (search_spec re_match).
+  Local Notation rule_filters := (rule_filters re_match).
+  Local Notation applying := (applying re_match).
+  Local Notation denied := (denied re_match ip_allow).
+  Local Notation rewrite_path := (rewrite re_replace).
+  Local Notation dispatch := (dispatch re_replace).
+  Local Notation serve_nocache := (serve_nocache re_match re_replace ip_allow).
+  Local Notation serve_spec := (serve_spec re_match re_replace ip_allow).
+
+  (** *** the path loop *)
+  Definition pmh (rq : request) (p : path_entry) : bool := path_match p rq && method_match p rq.
+  Definition pnm (rq : request) (p : path_entry) : bool := path_match p rq && negb (method_match p rq).
+
+  Lemma paths_dec_hit : forall rq ps hm mm p,
+    find (entry_match rq) ps = Some p -> exists hm', paths_dec rq ps hm mm = PHit p hm'.
   Proof.
-    intros sv rq p H Hb. unfold serve_nocache. rewrite H. cbn [dispatch]. rewrite Hb. reflexivity.
+    intros rq ps. induction ps as [|a ps IH]; intros hm mm p H; cbn in H; [discriminate|].
+    cbn [Mux.paths_dec]. unfold Mux.entry_match, Mux.headers_ok in H.
+    destruct (path_match a rq); cbn in *; [|now apply IH].
+    destruct (method_match a rq); cbn in *; [|now apply IH].
+    destruct (no_headers a); cbn in *.
+    - inversion H; subst. now exists hm.
+    - destruct (headers_match a rq); cbn in *; [|now apply IH].
+      inversion H; subst. now exists hm.
+  Qed.
+
+  Lemma paths_dec_none : forall rq ps hm mm,
+    find (entry_match rq) ps = None ->
+    paths_dec rq ps hm mm = PNone (hm || existsb (pmh rq) ps) (mm || existsb (pnm rq) ps).
+  Proof.
+    intros rq ps. induction ps as [|a ps IH]; intros hm mm H; cbn in H.
+    - cbn. now rewrite !orb_false_r.
+    - cbn [Mux.paths_dec existsb]. unfold Mux.entry_match, Mux.headers_ok, pmh, pnm in *.
+      destruct (path_match a rq); cbn in *; [|now apply IH].
+      destruct (method_match a rq); cbn in *.
+      + destruct (no_headers a); cbn in *; [discriminate|].
+        destruct (headers_match a rq); cbn in *; [discriminate|].
+        rewrite (IH true mm H). now rewrite orb_true_r.
+      + rewrite (IH hm true H). now rewrite orb_true_r.
+  Qed.
+
+  (** *** the rule loop against the declarative reference, with generalised flags *)
+  Definition ents (rs : list rule) : list (rule * path_entry) :=
+    flat_map (fun r => map (fun p => (r, p)) (ru_paths r)) rs.
+
+  Definition pnm_match (rq : request) (e : rule * path_entry) : bool :=
+    host_match (fst e) rq && pnm rq (snd e).
+
+  Definition spec_rules (rq : request) (rs : list rule) (hm mm : bool) : res :=
+    match find (full_match rq) (ents rs) with
+    | Some e => Route (snd e)
+    | None => Status (fail_code (hm || existsb (pm_match rq) (ents rs)) (mm || existsb (pnm_match rq) (ents rs)))
+    end.
+
+  Lemma result_of_add_vis : forall rq f d, result_of rq (add_vis f d) = result_of rq d.
+  Proof. intros rq f []; reflexivity. Qed.
+
+  Lemma allow_all_app : forall a b rq, allow_all (a ++ b)%list rq = allow_all a rq && allow_all b rq.
+  Proof. intros a b rq. unfold Mux.allow_all. apply forallb_app. Qed.
+
+  Lemma rules_dec_spec : forall rq rs hm mm,
+    result_of rq (rules_dec rq rs hm mm) =
+    if allow_all (rule_filters rq rs) rq then spec_rules rq rs hm mm else Status 403.
+  Proof.
+    intros rq rs. induction rs as [|r t IH]; intros hm mm.
+    - cbn. unfold spec_rules. cbn. now rewrite !orb_false_r.
+    - cbn [Mux.rules_dec Mux.rule_filters]. unfold spec_rules, ents. cbn [flat_map].
+      fold (ents t). rewrite find_app, !existsb_app, find_map, !existsb_map.
+      destruct (host_match r rq) eqn:Hh; cbn [negb].
+      + rewrite allow_all_app.
+        destruct (allow_all (fl (ru_filter r)) rq) eqn:Hf; cbn [negb andb]; [|reflexivity].
+        rewrite (find_ext (fun x => full_match rq (r, x)) (entry_match rq)).
+        2:{ intro x. unfold Mux.full_match, Mux.entry_match. cbn [fst snd]. rewrite Hh. reflexivity. }
+        destruct (find (entry_match rq) (ru_paths r)) as [p|] eqn:Hfind.
+        * destruct (paths_dec_hit rq _ hm mm p Hfind) as [hm' ->]. cbn. reflexivity.
+        * rewrite (paths_dec_none rq _ hm mm Hfind). rewrite result_of_add_vis, IH.
+          destruct (allow_all (rule_filters rq t) rq); [|reflexivity].
+          unfold spec_rules. cbn [option_map].
+          destruct (find (full_match rq) (ents t)); [reflexivity|].
+          do 2 f_equal.
+          -- rewrite <- orb_assoc. do 2 f_equal. apply existsb_ext. intro x.
+             unfold Mux.pm_match, pmh. cbn. rewrite Hh. cbn. reflexivity.
+          -- rewrite <- orb_assoc. do 2 f_equal. apply existsb_ext. intro x.
+             unfold pnm_match, pnm. cbn. rewrite Hh. reflexivity.
+      + rewrite IH. destruct (allow_all (rule_filters rq t) rq); [|reflexivity].
+        rewrite (find_none_false (fun x => full_match rq (r, x))).
+        2:{ intro x. unfold Mux.full_match. cbn. now rewrite Hh. }
+        cbn [option_map]. unfold spec_rules.
+        rewrite (existsb_false_all (fun x => pm_match rq (r, x))).
+        2:{ intro x. unfold Mux.pm_match. cbn. now rewrite Hh. }
+        rewrite (existsb_false_all (fun x => pnm_match rq (r, x))).
+        2:{ intro x. unfold pnm_match. cbn. now rewrite Hh. }
+        reflexivity.
+  Qed.
+
+  Lemma existsb_ext' {A} (f g : A -> bool) l : (forall x, f x = g x) -> existsb f l = existsb g l.
+  Proof. intro H. induction l as [|a l IH]; cbn; [reflexivity | now rewrite H, IH]. Qed.
+
+  (** when nothing matches path+method, "some path matches" = "some path matches with another method" *)
+  Lemma no_pm_then_p_is_pnm : forall rq (es : list (rule * path_entry)),
+    existsb (pm_match rq) es = false -> existsb (pnm_match rq) es = existsb (p_match rq) es.
+  Proof.
+    intros rq es. induction es as [|e es IH]; cbn; [reflexivity|].
+    intro H. apply orb_false_iff in H as [H1 H2]. rewrite (IH H2). f_equal.
+    unfold Mux.pm_match, pnm_match, Mux.p_match, pnm in *.
+    destruct (host_match (fst e) rq), (path_match (snd e) rq), (method_match (snd e) rq);
+      cbn in *; try reflexivity; discriminate.
+  Qed.
+
+  Lemma spec_rules_search_spec : forall sv rq,
+    spec_rules rq (sv_rules sv) false false = search_spec sv rq.
+  Proof.
+    intros sv rq. unfold spec_rules, Mux.search_spec, Mux.entries. fold (ents (sv_rules sv)).
+    destruct (find (full_match rq) (ents (sv_rules sv))); [reflexivity|]. cbn [orb].
+    unfold fail_code.
+    destruct (existsb (pm_match rq) (ents (sv_rules sv))) eqn:E; [reflexivity|].
+    rewrite (no_pm_then_p_is_pnm _ _ E). reflexivity.
+  Qed.
+
+  (** C01 main refinement (with the IP filters: 403 iff an applying filter denies) *)
+  Theorem loop_refines_spec : forall sv rq,
+    search_nocache sv rq = if denied sv rq then Status 403 else search_spec sv rq.
+  Proof.
+    intros sv rq. unfold Mux.search_nocache, Mux.search_dec, Mux.denied, Mux.applying.
+    rewrite allow_all_app.
+    destruct (allow_all (fl (sv_filter sv)) rq); cbn [negb andb]; [|reflexivity].
+    rewrite result_of_add_vis, rules_dec_spec.
+    destruct (allow_all (rule_filters rq (sv_rules sv)) rq); cbn [negb]; [|reflexivity].
+    apply spec_rules_search_spec.
+  Qed.
+
+  Theorem serve_refines_spec : forall sv rq, serve_nocache sv rq = serve_spec sv rq.
+  Proof.
+    intros sv rq. unfold Mux.serve_nocache, Mux.serve_spec. rewrite loop_refines_spec.
+    destruct (denied sv rq); reflexivity.
+  Qed.
+
+  (** *** C01 clauses *)
+  Theorem first_match : forall sv rq p,
+    denied sv rq = false ->
+    (search_nocache sv rq = Route p <->
+     exists l1 r l2, entries sv = (l1 ++ (r, p) :: l2)%list /\ full_match rq (r, p) = true /\
+                     (forall e, In e l1 -> full_match rq e = false)).
+  Proof.
+    intros sv rq p Hd. rewrite loop_refines_spec, Hd. unfold Mux.search_spec. split.
+    - destruct (find (full_match rq) (entries sv)) as [[r p']|] eqn:Hf.
+      + intro H. inversion H; subst. apply find_first in Hf as (l1 & l2 & E & Hx & Hl).
+        now exists l1, r, l2.
+      + destruct (existsb _ _); [discriminate|]. destruct (existsb _ _); discriminate.
+    - intros (l1 & r & l2 & E & Hx & Hl).
+      assert (Hf : find (full_match rq) (entries sv) = Some (r, p)).
+      { apply find_first. now exists l1, l2. }
+      now rewrite Hf.
+  Qed.
+
+  Theorem failure_precedence : forall sv rq,
+    denied sv rq = false ->
+    (forall e, In e (entries sv) -> full_match rq e = false) ->
+    search_nocache sv rq =
+      Status (if existsb (pm_match rq) (entries sv) then 400
+              else if existsb (p_match rq) (entries sv) then 405 else 404).
+  Proof.
+    intros sv rq Hd Hn. rewrite loop_refines_spec, Hd. unfold Mux.search_spec.
+    apply find_none_iff in Hn. rewrite Hn.
+    destruct (existsb (pm_match rq) (entries sv)); [reflexivity|].
+    destruct (existsb (p_match rq) (entries sv)); reflexivity.
+  Qed.
+
+  (** a failure status is produced only when no entry matches fully *)
+  Theorem status_only_without_match : forall sv rq c,
+    denied sv rq = false -> search_nocache sv rq = Status c ->
+    forall e, In e (entries sv) -> full_match rq e = false.
+  Proof.
+    intros sv rq c Hd. rewrite loop_refines_spec, Hd. unfold Mux.search_spec.
+    destruct (find (full_match rq) (entries sv)) eqn:Hf; [discriminate|].
+    intros _. now apply find_none_iff.
+  Qed.
+
+  Lemma nonempty_false : forall s, nonempty s = false -> s = "".
+  Proof. intros s H. unfold nonempty in H. apply negb_false_iff in H. now apply String.eqb_eq in H. Qed.
+
+  Lemma nonempty_true : forall s, s <> "" -> nonempty s = true.
+  Proof.
+    intros s H. unfold nonempty. apply negb_true_iff. apply String.eqb_neq. exact H.
+  Qed.
+
+  Theorem rewrite_none : forall p path, pe_rewrite p = "" -> rewrite_path p path = Some path.
+  Proof. intros p path H. unfold Mux.rewrite. rewrite H. reflexivity. Qed.
+
+  Theorem rewrite_exact : forall p path,
+    pe_rewrite p <> "" -> pe_path p <> "" -> pe_path p = path ->
+    rewrite_path p path = Some (pe_rewrite p).
+  Proof.
+    intros p path H1 H2 H3. unfold Mux.rewrite.
+    rewrite (nonempty_true _ H1), (nonempty_true _ H2), H3, String.eqb_refl. reflexivity.
+  Qed.
+
+  Theorem rewrite_prefix : forall p path rest,
+    pe_rewrite p <> "" -> (pe_path p = "" \/ pe_path p <> path) ->
+    pe_prefix p <> "" -> path = pe_prefix p ++ rest ->
+    rewrite_path p path = Some (pe_rewrite p ++ rest).
+  Proof.
+    intros p path rest H1 H2 H3 H4. unfold Mux.rewrite.
+    rewrite (nonempty_true _ H1), (nonempty_true _ H3). cbn [negb andb].
+    assert (E : nonempty (pe_path p) && String.eqb (pe_path p) path = false).
+    { destruct H2 as [H2 | H2]; [rewrite H2; reflexivity|].
+      apply String.eqb_neq in H2. rewrite H2. apply andb_false_r. }
+    rewrite E, H4, is_prefix_app, sdrop_app. reflexivity.
+  Qed.
+
+  Theorem rewrite_regexp : forall p path,
+    pe_rewrite p <> "" -> (pe_path p = "" \/ pe_path p <> path) ->
+    (pe_prefix p = "" \/ is_prefix (pe_prefix p) path = false) ->
+    pe_regexp p <> "" ->
+    rewrite_path p path = Some (re_replace (pe_regexp p) path (pe_rewrite p)).
+  Proof.
+    intros p path H1 H2 H3 H4. unfold Mux.rewrite.
+    rewrite (nonempty_true _ H1), (nonempty_true _ H4). cbn [negb].
+    assert (E : nonempty (pe_path p) && String.eqb (pe_path p) path = false).
+    { destruct H2 as [H2 | H2]; [rewrite H2; reflexivity|].
+      apply String.eqb_neq in H2. rewrite H2. apply andb_false_r. }
+    assert (E2 : nonempty (pe_prefix p) && is_prefix (pe_prefix p) path = false).
+    { destruct H3 as [H3 | H3]; [rewrite H3; reflexivity | rewrite H3; apply andb_false_r]. }
+    rewrite E, E2. reflexivity.
+  Qed.
+
+  Theorem dispatch_backend_and_path : forall sv rq p,
+    search_nocache sv rq = Route p ->
+    str_in (pe_backend p) (sv_backends sv) = true ->
+    serve_nocache sv rq =
+      match rewrite_path p (rq_path rq) with
+      | Some path' => Dispatched (pe_backend p) path'
+      | None => Panicked
+      end.
+  Proof.
+    intros sv rq p H Hb. unfold Mux.serve_nocache. rewrite H. cbn [Mux.dispatch]. now rewrite Hb.
+  Qed.
+
+  Theorem unknown_backend_503 : forall sv rq p,
+    search_nocache sv rq = Route p ->
+    str_in (pe_backend p) (sv_backends sv) = false ->
+    serve_nocache sv rq = Failed 503.
+  Proof.
+    intros sv rq p H Hb. unfold Mux.serve_nocache. rewrite H. cbn [Mux.dispatch]. now rewrite Hb.
+  Qed.
+
+  Lemma str_in_In : forall s l, str_in s l = true <-> In s l.
+  Proof.
+    intros s l. unfold str_in. rewrite existsb_exists. split.
+    - intros (x & Hx & E). apply String.eqb_eq in E. now subst.
+    - intro H. exists s. split; [assumption | apply String.eqb_refl].
+  Qed.
+
+  (** matchAllHeader = conjunction over the conditions (a condition with an empty value list
+      does not constrain the value; one with an empty regexp does not constrain by regexp);
+      otherwise disjunction (an empty value list never matches by value) *)
+  Theorem match_all_header_semantics : forall p rq,
+    let v h := hget (hc_key h) (rq_headers rq) in
+    (pe_match_all p = true ->
+       (headers_match p rq = true <->
+        forall h, In h (pe_headers p) ->
+          (hc_values h = [] \/ In (v h) (hc_values h)) /\
+          (hc_regexp h = "" \/ re_match (hc_regexp h) (v h) = true))) /\
+    (pe_match_all p = false ->
+       (headers_match p rq = true <->
+        exists h, In h (pe_headers p) /\
+          (In (v h) (hc_values h) \/ (hc_regexp h <> "" /\ re_match (hc_regexp h) (v h) = true)))).
+  Proof.
+    intros p rq v. split; intro Hm; unfold Mux.headers_match; rewrite Hm.
+    - rewrite forallb_forall. split; intros H h Hh; specialize (H h Hh).
+      + unfold Mux.cond_all in H. fold (v h) in H. apply andb_true_iff in H as [H1 H2]. split.
+        * destruct (hc_values h) as [|a l] eqn:E; [now left|]. right. now apply str_in_In.
+        * destruct (nonempty (hc_regexp h)) eqn:E; [now right|]. left. now apply nonempty_false.
+      + destruct H as [H1 H2]. unfold Mux.cond_all. fold (v h). apply andb_true_iff. split.
+        * destruct (hc_values h) as [|a l] eqn:E; [reflexivity|].
+          destruct H1 as [H1 | H1]; [discriminate|]. now apply str_in_In.
+        * destruct H2 as [H2 | H2]; [rewrite H2; reflexivity|].
+          destruct (nonempty (hc_regexp h)); [assumption | reflexivity].
+    - rewrite existsb_exists. split; intros (h & Hh & H); exists h; (split; [assumption|]).
+      + unfold Mux.cond_any in H. fold (v h) in H. apply orb_true_iff in H as [H | H].
+        * left. now apply str_in_In.
+        * apply andb_true_iff in H as [H1 H2]. right. split; [|assumption].
+          intro E. rewrite E in H1. discriminate.
+      + unfold Mux.cond_any. fold (v h). apply orb_true_iff. destruct H as [H | [H1 H2]].
+        * left. now apply str_in_In.
+        * right. now rewrite (nonempty_true _ H1), H2.
+  Qed.
+
+  (** "port ignored": a request for [name:port] is matched against rules exactly like one for [name] *)
+  Theorem port_ignored : forall r rq1 rq2 name port,
+    shas ":" name = false -> shas "[" name = false -> shas "]" name = false ->
+    shas ":" port = false -> shas "[" port = false -> shas "]" port = false ->
+    rq_host rq1 = name ++ ":" ++ port -> rq_host rq2 = name ->
+    host_match r rq1 = host_match r rq2.
+  Proof.
+    intros r rq1 rq2 name port H1 H2 H3 H4 H5 H6 E1 E2. unfold Mux.host_match.
+    rewrite E1, E2, (strip_port_name_port name port H1 H2 H3 H4 H5 H6), (strip_port_no_colon name H1).
+    reflexivity.
+  Qed.
+
+  (** validated configurations never reach the nil-regexp dereference of rewrite *)
+  Lemma in_entries : forall rs r p, In (r, p) (ents rs) -> In r rs /\ In p (ru_paths r).
+  Proof.
+    intros rs r p H. unfold ents in H. apply in_flat_map in H as (r' & Hr & Hp).
+    apply in_map_iff in Hp as (p' & E & Hp). inversion E; subst. now split.
+  Qed.
+
+  Theorem valid_never_panics : forall sv rq,
+    valid_server sv = true -> serve_nocache sv rq <> Panicked.
+  Proof.
+    intros sv rq Hv. rewrite serve_refines_spec. unfold Mux.serve_spec.
+    destruct (denied sv rq); [discriminate|].
+    unfold Mux.search_spec.
+    destruct (find (full_match rq) (entries sv)) as [[r p]|] eqn:Hf.
+    2:{ destruct (existsb _ _); [discriminate|]. destruct (existsb _ _); discriminate. }
+    apply find_first in Hf as (l1 & l2 & E & Hx & _).
+    assert (Hin : In (r, p) (entries sv)) by (rewrite E; apply in_or_app; right; now left).
+    apply in_entries in Hin as [Hr Hp].
+    unfold valid_server in Hv. rewrite forallb_forall in Hv. specialize (Hv r Hr).
+    rewrite forallb_forall in Hv. specialize (Hv p Hp).
+    cbn [snd Mux.dispatch]. destruct (str_in (pe_backend p) (sv_backends sv)); [|discriminate].
+    unfold Mux.full_match in Hx. cbn [fst snd] in Hx.
+    apply andb_true_iff in Hx as [Hx _]. apply andb_true_iff in Hx as [Hx _].
+    apply andb_true_iff in Hx as [_ Hpm].
+    unfold valid_path in Hv. apply andb_true_iff in Hv as [Hv _].
+    unfold Mux.path_match in Hpm. unfold Mux.rewrite.
+    destruct (nonempty (pe_rewrite p)); cbn [negb]; [|discriminate].
+    destruct (nonempty (pe_path p)) eqn:E1, (nonempty (pe_prefix p)) eqn:E2, (nonempty (pe_regexp p)) eqn:E3;
+      cbn in *; try discriminate;
+      repeat match goal with
+             | |- context [if ?b then _ else _] => destruct b eqn:?; cbn in *; try discriminate
+             end.
+  Qed.
+
+  (** *** router-level C05 clauses, cache-less *)
+  Theorem denied_403_nocache : forall sv rq,
+    denied sv rq = true -> serve_nocache sv rq = Failed 403.
+  Proof.
+    intros sv rq H. rewrite serve_refines_spec. unfold Mux.serve_spec. now rewrite H.
+  Qed.
+
+  Lemma host_match_erase : forall r rq, host_match (erase_rule r) rq = host_match r rq.
+  Proof. reflexivity. Qed.
+
+  Lemma ents_erase : forall rs,
+    ents (map erase_rule rs) = map (fun e => (erase_rule (fst e), erase_path (snd e))) (ents rs).
+  Proof.
+    induction rs as [|r t IH]; cbn; [reflexivity|].
+    rewrite map_app, IH. f_equal. cbn. rewrite !map_map. reflexivity.
+  Qed.
+
+  Lemma search_spec_erase : forall sv rq,
+    search_spec (erase_filters sv) rq =
+    match search_spec sv rq with Route p => Route (erase_path p) | Status c => Status c end.
+  Proof.
+    intros sv rq. unfold Mux.search_spec, Mux.entries. fold (ents (sv_rules (erase_filters sv))).
+    fold (ents (sv_rules sv)). cbn [erase_filters sv_rules]. rewrite ents_erase, find_map, !existsb_map.
+    rewrite (find_ext _ (full_match rq)) by (intros [r p]; reflexivity).
+    rewrite (existsb_ext' _ (pm_match rq)) by (intros [r p]; reflexivity).
+    rewrite (existsb_ext' _ (p_match rq)) by (intros [r p]; reflexivity).
+    destruct (find (full_match rq) (ents (sv_rules sv))) as [[r p]|]; cbn; [reflexivity|].
+    destruct (existsb _ _); [reflexivity|]. destruct (existsb _ _); reflexivity.
+  Qed.
+
+  Lemma denied_erase : forall sv rq, denied (erase_filters sv) rq = false.
+  Proof.
+    intros sv rq. unfold Mux.denied, Mux.applying. cbn [erase_filters sv_filter sv_rules fl app].
+    assert (H : forall rs, rule_filters rq (map erase_rule rs) = []).
+    { induction rs as [|r t IH]; cbn [map Mux.rule_filters]; [reflexivity|].
+      rewrite host_match_erase. destruct (host_match r rq); [|exact IH].
+      cbn [erase_rule ru_filter fl app ru_paths].
+      destruct (find (entry_match rq) (map erase_path (ru_paths r))) as [p|] eqn:Hf; [|exact IH].
+      rewrite find_map in Hf. destruct (find _ (ru_paths r)); cbn in Hf; [|discriminate].
+      inversion Hf; subst. reflexivity. }
+    rewrite H. reflexivity.
+  Qed.
+
+  Theorem not_denied_unaffected_nocache : forall sv rq,
+    denied sv rq = false -> serve_nocache sv rq = serve_nocache (erase_filters sv) rq.
+  Proof.
+    intros sv rq H. rewrite !serve_refines_spec. unfold Mux.serve_spec.
+    rewrite H, denied_erase, search_spec_erase.
+    destruct (search_spec sv rq) as [p|c]; reflexivity.
   Qed.
 End MuxProofs.
